@@ -33,5 +33,32 @@ check("C08",
                 "checked in every reached state",
       engine="rbtree", design="3/C08")
 
+check("C10",
+      passes=[dict(name="C10", src=["harness/C10.cpp"], variant="fast", shards={"quick": 8, "thorough": 16})],
+      rule="ALL 2^18 subsets of the 18 basic specifiers and all 2^3 subsets of qualifiers are built as unions of "
+           "Lexicon::specifiers(name) and decomposed (exact, no repeats, order-independent, injective); binary laws "
+           "| & ^ implies |= &= ^= against a uint32 mask model on every pair (A any, B of size or co-size <= 2) in quick and on "
+           "ALL 2^36 pairs in thorough; 17+3 named accessors; every non-basic reserved word, the invisible logogram and "
+           "dynamic logograms must be refused. distinct_nontrivial = non-empty subsets enumerated.",
+      text="The finite configuration space of the property is closed completely (unary laws in both tiers, binary "
+           "laws in thorough) on the real Lexicon and the real header operators, against a bitmask reference model.",
+      note="The list of 18 basic names and 56 reserved words is written down in the harness from the interface "
+           "documentation; 'refused' means any exception and no value.",
+      technique="complete enumeration of the configuration space on the implementation against a bitmask model",
+      engine="bitalgebra", design="3/C10", deadline={"quick": 120, "thorough": 1500})
+
+check("C16",
+      passes=[dict(name="C16", src=["harness/C16.cpp"] + ENV, variant="fast", shards={"quick": 8, "thorough": 16})],
+      rule="elementary: all 4x3x4 (bound parameter, value, queried parameter) triples; general: ALL binding sequences of "
+           "length <= 4 (quick) / <= 5 (thorough) over 12 (parameter,value) pairs incl. rebinding, each on a fresh Lexicon, "
+           "all 4 parameters queried after every step and compared (by node identity) with a std::map last-write-wins "
+           "model. distinct_nontrivial = distinct final maps reached.",
+      text="Every operation sequence up to the bound is executed on the real substitution classes and compared with "
+           "a reference map after every step.",
+      note="Parameters come from two parameter lists (two share a name); one value is itself a parameter so that a "
+           "chained application would be visible.",
+      technique="exhaustive enumeration of operation sequences up to a depth bound on the implementation against a reference model",
+      engine="explore", design="3/C16")
+
 # Properties not claimed (with the reason that goes to MANIFEST.not_applicable).
 NOT_CLAIMED = {}
